@@ -999,11 +999,10 @@ class Spectrum(numpy.ma.masked_array):
         # sfs_code default is 6 individuals, and I assume diploid pop
         pop_samples = [12] *  num_pops
         if '--sampSize' in command_terms or '-n' in command_terms:
-            try:
+            if '--sampSize' in command_terms:
                 pop_flag = command_terms.index('--sampSize')
+            else:
                 pop_flag = command_terms.index('-n')
-            except ValueError:
-                pass
             pop_samples = [2*int(command_terms[pop_flag+ii])
                            for ii in range(1, 1+num_pops)]
         
